@@ -1,1 +1,17 @@
-
+-- every property module (and through them every helper file) is part of the default build
+import Proofs.Properties.C01
+import Proofs.Properties.C02
+import Proofs.Properties.C03
+import Proofs.Properties.C04
+import Proofs.Properties.C05
+import Proofs.Properties.C06
+import Proofs.Properties.C07
+import Proofs.Properties.C08
+import Proofs.Properties.C09
+import Proofs.Properties.C10
+import Proofs.Properties.C11
+import Proofs.Properties.C12
+import Proofs.Properties.C13
+import Proofs.Properties.C14
+import Proofs.Properties.C15
+import Proofs.Properties.C16
